@@ -55,7 +55,7 @@ func main() {
 	}
 	want := map[string]bool{}
 	for _, r := range strings.Split(*rules, ",") {
-		if r = strings.TrimSpace(r); r != "" {
+		if r = strings.TrimSpace(r); r != "" && r != "none" {
 			want[r] = true
 		}
 	}
